@@ -148,9 +148,17 @@ pub fn classify(t: &str, q: &QOpt) -> Expect {
         }
         return if q.digits {
             if t.ends_with(':') && q.kw_postfix {
-                // a name and a colon: whatever it is (the statement leaves the
-                // name open), the whole token is not a numeric literal
-                Expect::NotNumber
+                let name = &t[..t.len() - 1];
+                if !name.ends_with(':') && numeric_literal(name).is_none() {
+                    // `1a:`: under leading-digit symbols `1a` is a name like any
+                    // other, so `name:` is a keyword exactly when the postfix
+                    // spelling is enabled (seeded change C08j)
+                    kw(name)
+                } else {
+                    // a numeric literal and a colon (`1:`): the statement leaves
+                    // the name open; the whole token is not a numeric literal
+                    Expect::NotNumber
+                }
             } else {
                 sym(t)
             }
@@ -561,6 +569,8 @@ pub const CORPUS: &[&str] = &[
     "#x10", "#xFf", "#x-ff", "#b101", "#o17", "#d10", "#b2", "#b102", "#b12", "#o8", "#o18", "#o79", "#xg", "#x1g", "#xfg", "#d1a", "#da", "#b", "#x-", "#b1.0", "#o1e2",
     // complete numeric literals with a colon at either end
     "1:", "12:", "1.5:", "1e3:", "007:", "-1:", "+5:", ".5:", "#x1F:", ":1", ":1.5", ":-1", ":1e3", "#:1", "#:1.5", "1::", ":1:",
+    // digit-initial names with a colon at either end (the leading-digit and keyword options together)
+    "1a:", "12ab:", "1+:", "1-:", "3rd:", "9x:", "1/2:", "1.5.6:", "1e:", "0x10:", ":1a", ":12ab", ":1+", "#:1a", "1a::", ":1a:",
     "+5", "-5", "+1.5", "-0", "+", "-", "+a", "-a", "--", "->x", "...", ".a", "..", "-1+", "+1x", "-1a", "+5.", ".5", "-.5", "+.5",
     // strings
     "\"a\\x41;b\"", "\"a\\101b\"", "\"plain\"", "\"a\\u00e9\"",
